@@ -192,6 +192,36 @@ func runSolvers(workdir, name, script string, timeoutS int, needAgree bool) Solv
 	if err := os.WriteFile(fn, []byte(script), 0o644); err != nil {
 		return SolverResult{Verdict: "error", Output: err.Error()}
 	}
+	if !needAgree {
+		// stage 1: the solver that decides most obligations, alone and briefly; the full race only if it does not answer
+		if r, ok := runOne(solvers[1], fn, 2); ok {
+			return r
+		}
+	}
+	return raceSolvers(fn, timeoutS, needAgree)
+}
+
+func runOne(s solverDef, fn string, timeoutS int) (SolverResult, bool) {
+	solverSem <- struct{}{}
+	defer func() { <-solverSem }()
+	args := s.args(fn, timeoutS)
+	t0 := time.Now()
+	c, cancel := context.WithTimeout(context.Background(), time.Duration(timeoutS+1)*time.Second)
+	defer cancel()
+	cmd := exec.CommandContext(c, args[0], args[1:]...)
+	var buf bytes.Buffer
+	cmd.Stdout = &buf
+	cmd.Stderr = &buf
+	_ = cmd.Run()
+	out := buf.String()
+	first := strings.TrimSpace(strings.SplitN(out, "\n", 2)[0])
+	if first == "sat" || first == "unsat" {
+		return SolverResult{Verdict: first, Solver: s.name, Ms: time.Since(t0).Milliseconds(), Output: trunc(out, 6000), All: map[string]string{s.name: first}}, true
+	}
+	return SolverResult{}, false
+}
+
+func raceSolvers(fn string, timeoutS int, needAgree bool) SolverResult {
 	ctx, cancel := context.WithCancel(context.Background())
 	defer cancel()
 	type one struct {
